@@ -766,6 +766,14 @@ def build_C08(ctx, tier, rnd):
     # queued events and bans of the old release must not reach the new one
     for old in (('u1', 's', 'fail'), ('u1', 's', 'R'), ('u1', 's', 'ok', 'u2', 'R', 's', 'fail')):
         hs.append(('c08e_%d' % len(hs), [al.init] + al.seq(old) + al.seq(['RV', 'upnone', 'u1', 'q', 'u2', 'q'])))
+    # the record of WHICH release the stored state was written for is itself lost or cut short (an interrupted save of
+    # state.json) when the release changes: nothing of the old release may be taken over on the strength of the other files
+    for old in [PFX[k] for k in sorted(PFX)] + [('u1', 's', 'ok', 'u2', 's', 'fail'), ('u1', 's', 'fail', 'u2')]:
+        for dmg in ('op dmg sj garbage', 'op dmg sj missing', 'op dmg rawsj @empty', 'op dmg rawsj @sjcut'):
+            for rv in ('RV', 'RV0'):
+                hs.append(('c08d_%d' % len(hs), [al.init] + al.seq(old) + [dmg] + al.seq([rv, 'q', 'c', 'p', 'u1', 'q'])))
+    ctx.add_blob('empty', b'')
+    ctx.add_blob('sjcut', b'{\n  "release_version": "1.0.0+1",\n  "queued_events": [')
     return hs
 
 
@@ -1800,8 +1808,8 @@ def run_C13(pid, tier, seed, model_ok=True):
             tail = rnd.sample(api, 5)
             if i < 14:      # the extreme-timestamp documents (the first 14): make sure the queue is actually reported
                 tail = [al.ops['upnone'][0]] + tail
-            # patches_state.json: the model reads the bytes itself (JsonState.pj_of_file) - compared, not only exercised
-            (hs_pjtext if which == 'pj' else hs_impl).append(('mal%d' % i, [al.init] + pre + ['op dmg raw%s @mal%d' % (which, i)] + tail + ['op kill', al.init] + rnd.sample(api, 4)))
+            # both state files: the model reads the bytes itself (JsonState.pj_of_file, JsonSj.sj_of_file) - compared, not only exercised
+            hs_pjtext.append(('mal%d' % i, [al.init] + pre + ['op dmg raw%s @mal%d' % (which, i)] + tail + ['op kill', al.init] + rnd.sample(api, 4)))
         # the same file at the text level: a well-formed state spelled with white space, escapes, reordered and unknown members
         # (lenient content under unknown keys), and byte-level mutants of it
         import jsontext
@@ -1831,6 +1839,57 @@ def run_C13(pid, tier, seed, model_ok=True):
             ctx.add_blob('pjt%d' % i, data)
             pre = al.seq(rnd.choice([PFX['good1pend2'], PFX['good1boot2'], PFX['boot1'], ()]))
             hs_pjtext.append(('pjt%d' % i, [al.init] + pre + ['op dmg rawpj @pjt%d' % i] + rnd.sample(api, 4) + ['op kill', al.init] + rnd.sample(api, 3)))
+        # state.json at the text level: a release version and queued events spelled with white space, escapes, reordered and
+        # unknown members (lenient content under unknown keys, inside events too), positional forms, and byte-level mutants
+        evt = lambda k, num, msg: ('obj', [('app_id', ('str', 'app-1')), ('arch', ('str', os.environ.get('UV_ARCH', 'x86_64'))), ('type', ('str', k)),
+                                           ('patch_number', ('int', False, num)), ('platform', ('str', 'linux')), ('release_version', ('str', REL1)),
+                                           ('timestamp', ('int', False, 1700000000)), ('message', msg)])
+        sj_tree = ('obj', [('release_version', ('str', REL1)),
+                           ('queued_events', ('arr', [evt('__patch_install_failure__', 2, ('str', 'Install failure reported from engine for patch 2')),
+                                                      evt('__patch_install_failure__', 12, ('str', 'Patch 12 was marked currently_booting in init')),
+                                                      evt('__patch_download__', 3, ('null',)),
+                                                      evt('__patch_install__', 1, ('str', 'some other text'))]))])
+        r1 = REL1.encode()
+        e1 = b'{"app_id":"a","arch":"' + os.environ.get('UV_ARCH', 'x86_64').encode() + b'","type":"__patch_install_failure__","patch_number":2,"platform":"linux","release_version":"' + r1 + b'","timestamp":1,"message":null'
+        sj_edges = [
+            b'{"release_version":"' + r1 + b'","queued_events":[]}', b'{"queued_events":[],"release_version":"' + r1 + b'"}',
+            b'{"release_version":"' + r1 + b'","queued_events":[],"x":"\\ud800"}', b'{"release_version":"' + r1 + b'","queued_events":[],"x":"\xff"}',
+            b'{"release_version":"' + r1 + b'"}', b'{"queued_events":[]}', b'{"release_version":"' + r1 + b'","queued_events":null}',
+            b'{"release_version":"' + r1 + b'","queued_events":{}}', b'{"release_version":"' + r1 + b'","queued_events":{"0":' + e1 + b'}}}',
+            b'{"release_version":"' + r1 + b'","queued_events":[],"release_version":"' + r1 + b'"}', b'["' + r1 + b'",[]]', b'["' + r1 + b'"]', b'["' + r1 + b'",[],1]',
+            b'{"release_version":"' + r1 + b'","queued_events":[' + e1 + b'}]}',
+            b'{"release_version":"' + r1 + b'","queued_events":[' + e1 + b',"zz":"\\udc00"}]}',
+            b'{"release_version":"' + r1 + b'","queued_events":[' + e1 + b',"zz":{"q":["\xed\xa0\x80"]}}]}',
+            b'{"release_version":"' + r1 + b'","queued_events":[' + e1 + b',"message":null}]}',
+            b'{"release_version":"' + r1 + b'","queued_events":[' + e1.replace(b',"message":null', b'') + b'}]}',
+            b'{"release_version":"' + r1 + b'","queued_events":[' + e1.replace(b'__patch_install_failure__', b'__patch_install_failed__') + b'}]}',
+            b'{"release_version":"' + r1 + b'","queued_events":[' + e1.replace(b'"type":"__patch_install_failure__"', b'"type":null') + b'}]}',
+            b'{"release_version":"' + r1 + b'","queued_events":[' + e1.replace(b'"patch_number":2', b'"patch_number":-0') + b'}]}',
+            b'{"release_version":"' + r1 + b'","queued_events":[' + e1.replace(b'"patch_number":2', b'"patch_number":18446744073709551615') + b'}]}',
+            b'{"release_version":"' + r1 + b'","queued_events":[' + e1.replace(b'"patch_number":2', b'"patch_number":18446744073709551616') + b'}]}',
+            b'{"release_version":"' + r1 + b'","queued_events":[' + e1.replace(b'"timestamp":1', b'"timestamp":1.5') + b'}]}',
+            b'{"release_version":"' + r1 + b'","queued_events":[' + e1.replace(b'"message":null', b'"message":""') + b'}]}',
+            b'{"release_version":"' + r1 + b'","queued_events":[' + e1.replace(b'"message":null', b'"message":"Patch 2 was marked currently_booting in init"') + b'}]}',
+            b'{"release_version":"' + r1 + b'","queued_events":[' + e1.replace(b'"message":null', b'"message":"Patch 02 was marked currently_booting in init"') + b'}]}',
+            b'{"release_version":"' + r1 + b'","queued_events":[["a","' + os.environ.get('UV_ARCH', 'x86_64').encode() + b'","__patch_download__",3,"linux","' + r1 + b'",5,null]]}',
+            b'{"release_version":"' + r1 + b'","queued_events":[["a","' + os.environ.get('UV_ARCH', 'x86_64').encode() + b'","__patch_download__",3,"linux","' + r1 + b'",5]]}',
+            b'{"release_version":"' + r1 + b'","queued_events":[' + e1 + b'},' + e1 + b'},' + e1 + b'},' + e1 + b'},' + e1 + b'}]}',
+            b'{"release_version":"' + r1 + b'","queued_events":[' + e1 + b'},]}', b'{"release_version":"other","queued_events":[' + e1 + b'}]}',
+            b'{"release_version":"' + r1 + b'","queued_events":[' + e1.replace(b'"platform":"linux"', b'"platform":"android"') + b'}]}',
+            b'\xef\xbb\xbf{"release_version":"' + r1 + b'","queued_events":[]}', b'{"release_version":"' + r1 + b'","queued_events":[]} x',
+            b' \n{"release_version" : "' + r1 + b'" , "queued_events" : [ ] }\n\n', b'null', b'', b'{', b'{\n  "release_version": "' + r1 + b'",\n  "queued_events": [',
+        ]
+        stexts = list(sj_edges)
+        for _ in range(40 if tier == 'quick' else 1500):
+            b_ = jsontext.render(rnd, sj_tree)
+            stexts.append(b_)
+            stexts.append(jsontext.mutate(rnd, b_))
+            stexts.append(jsontext.mutate(rnd, jsontext.mutate(rnd, b_)))
+        for i, data in enumerate(stexts):
+            ctx.add_blob('sjt%d' % i, data)
+            pre = al.seq(rnd.choice([PFX['good1pend2'], PFX['good1boot2'], PFX['boot1'], ()]))
+            # the update that reports nothing new comes first: whatever queue was read is put on the wire and compared
+            hs_pjtext.append(('sjt%d' % i, [al.init] + pre + ['op dmg rawsj @sjt%d' % i, al.ops['upnone'][0]] + rnd.sample(api, 3) + ['op kill', al.init] + rnd.sample(api, 3)))
         fsd = ['op dmg artisfile 2', 'op dmg artfileisdir 2', 'op dmg patchesisfile', 'op dmg pjisdir', 'op dmg artisfile 1', 'op dmg artfileisdir 1']
         for i, dmg in enumerate(fsd):
             for pk in ('good1pend2', 'good1boot2', 'empty'):
@@ -1901,11 +1960,17 @@ def run_C13(pid, tier, seed, model_ok=True):
         for x in extras + extras2:
             if 'PANIC-HOOK' in x or 'CRASH' in x:
                 fails.append(('harness', 0, 'C13: ' + x[:300], ['op nextnum'], header))
-        extras = [x for x in extras + extras2 if 'PANIC-HOOK' not in x and 'CRASH' not in x]
+            elif 'THREAD-STUCK' in x:
+                # a thread of the library that never ends (blocked on a channel, a pipe, a lock): the call returned, the thread hangs
+                m = re.search(r'hist=(\S+)', x)
+                h = m.group(1) if m and m.group(1) in opsof else 'harness'
+                fails.append((h, len(opsof.get(h, [])) - 1 if h in opsof else 0, 'C13: ' + x[:300], opsof.get(h, ['op nextnum']), header))
+        extras = [x for x in extras + extras2 if 'PANIC-HOOK' not in x and 'CRASH' not in x and 'THREAD-STUCK' not in x]
         samples = [{'history': hs_impl[0][0], 'ops': [o[:100] for o in hs_impl[0][1][:8]]}, {'history': hs_both[0][0], 'ops': [o[:100] for o in hs_both[0][1][:6]]}]
         return dict(evaluations=evals, distinct=len(distinct), samples=samples, divergences=divs, monitor_fail=fails,
                     rule='malformed state.json / patches_state.json (typed mutants, truncation, byte noise, huge values), files where directories are expected and vice versa, malformed YAML, extreme patch numbers / hashes / downloads, unconformant random call orders incl. calls before init; a panic hook on every thread + process exit status; every output checked against its documented domain; non-trivial = distinct (call, output, state-file kind)',
-                    dist={'malformed_histories': len(hs_impl), 'model_compared_histories': len(hs_both)}, extras=extras, traces=len(impl) + len(impl2))
+                    dist={'malformed_histories': len(hs_impl), 'model_compared_histories': len(hs_both), 'state_json_texts_compared': len(stexts), 'patches_state_json_texts_compared': len(texts),
+                          'histories_the_model_cannot_represent_(foreign platform in a stored event)': len(set(UNREP_SKIPPED))}, extras=extras, traces=len(impl) + len(impl2))
     finally:
         ctx.cleanup()
         shutil.rmtree(work, ignore_errors=True)
